@@ -198,6 +198,29 @@ func runC10(c *sim.Ctx) *sim.Violation {
 	}
 	acfg := apiCfg(c, false)
 	a := gen.Packet(t, acfg)
+	if c.Run >= c10SweepRuns+14 && c.Run < c10SweepRuns+17 {
+		// frames of EXACTLY a round size in bytes (decimal and binary): the sizes at
+		// which block-wise writers have their seams
+		sizes := [][]int{{100000, 1 << 17, 250000}, {1000000, 1 << 20, 1<<20 + 1}, {2000000, 1 << 21, 3000000}}[c.Run-c10SweepRuns-14]
+		for _, N := range sizes {
+			// topic "t" (3) + property length (1) + header (1 + width of the length field)
+			pay := N - 4 - 1 - ref.VarintLen(uint32(N-5))
+			if 1+ref.VarintLen(uint32(4+pay))+4+pay != N {
+				pay = N - 4 - 1 - ref.VarintLen(uint32(4+pay))
+			}
+			pb := mq.NewPublish()
+			pb.SetTopicName("t")
+			pb.SetPayload(make([]byte, pay))
+			w := &countWriter{}
+			n, err := pb.WriteTo(w)
+			if err != nil || int(n) != w.n || w.n != 1+ref.VarintLen(uint32(4+pay))+4+pay {
+				return sim.V("C10/PUBLISH/exact-frame-size", "PUBLISH whose frame is exactly %d bytes (payload %d): WriteTo -> n=%d err=%v, the writer was handed %d bytes", 1+ref.VarintLen(uint32(4+pay))+4+pay, pay, n, err, w.n)
+			}
+			c.Count("probe.frame-of-exactly-a-round-size")
+		}
+		c.DistinctStr(fmt.Sprintf("exact/%d", c.Run))
+		return nil
+	}
 	if c.Run >= c10SweepRuns+12 && c.Run < c10SweepRuns+14 {
 		// payloads of 16 MiB and more (an encoder may stop copying such a payload and
 		// hand it to the writer in a call of its own)
@@ -262,6 +285,13 @@ func runC10(c *sim.Ctx) *sim.Violation {
 			return sim.V("C10/"+typ+"/build", "cannot build %s through the API: %v", typ, berr)
 		}
 	}
+	if sub, ok := p.(*mq.Subscribe); ok && malformed == "" && origin == "built through the API" && t.Bool(1, 8) {
+		// SetSubscriptionID takes an int: identifiers beyond 268 435 455 are
+		// constructible (WellFormed objects); whatever is written must be counted truly
+		id := []int{268435456, 1 << 32, 1<<35 + 7, 1 << 40, 1<<62 + 1, -1}[t.Int(6)]
+		sim.Guard(func() { sub.SetSubscriptionID(id) })
+		malformed = "subscription-identifier-out-of-range"
+	}
 	// (1) a writer that accepts everything; one time in three it also offers
 	// WriteString / WriteByte / ReadFrom (bait for type-switching fast paths)
 	w := link.NewWriter(c)
@@ -298,7 +328,7 @@ func runC10(c *sim.Ctx) *sim.Violation {
 	if int(n) != len(B) {
 		return sim.V("C10/"+typ+"/count-differs-from-bytes-written", "%s", desc())
 	}
-	if _, derr := ref.Decode(B, true); derr != nil {
+	if _, derr := ref.Decode(B, true); derr != nil && malformed != "subscription-identifier-out-of-range" {
 		return sim.V("C10/"+typ+"/frame-does-not-parse", "%s\nlenient specification decoder: %v", desc(), derr)
 	}
 	var str string
